@@ -1034,6 +1034,18 @@ def check_C19(chk, binp):
     if not bp:
         for i in bpm[:3]:
             chk.violation('correspondence broken (public entry vs search model) on %s: code %s model %s' % (pc[i], (pa[i] or '')[:200], (pm[i] or '')[:200]), {'kind': 'correspondence', 'case': pc[i], 'code': pa[i], 'model': pm[i]}, found_input=False)
+    # the same single-worker searches BEFORE and AFTER unrelated multi-worker searches in ONE process: nothing a search leaves
+    # behind in the process (statics, lazily initialised state) may change a later fresh-memory search
+    pre = cases[:8]
+    noise = ['search\t%d\t%d\t3\t-\t%d\t4\t256\t-\t%s' % (rnd.randrange(1 << 30), rnd.randrange(1 << 50), w, f) for w, f in zip([4, 8, 2], WIDE[:3])]
+    seq = pre + noise + pre
+    so = run_cases(binp, seq, 'C19-seq', shards=1, timeout=1200)
+    first, again = so[:len(pre)], so[len(pre) + len(noise):]
+    bseq = [i for i in range(len(pre)) if first[i] != again[i]]
+    chk.streams.append({'name': 'the same single-worker fresh-memory searches before and after unrelated multi-worker searches in one process', 'against': 'the same code, earlier in the same process', 'cases': len(pre), 'disagreements': len(bseq)})
+    chk.evaluations += len(seq)
+    for i in bseq[:2]:
+        chk.violation('a single-worker fresh-memory search reports something else after unrelated multi-worker searches in the same process: %s -> %s / %s' % (pre[i], (first[i] or '')[:200], (again[i] or '')[:200]), {'kind': 'history', 'sequence': seq, 'case': pre[i], 'before': first[i], 'after': again[i]}, found_input=True)
     for c in cases:
         chk.distinct.add(c.split('\t', 2)[2])
     chk.rule = 'single-worker searches (synchronous hook entry, fresh small artifact) of live and terminal positions at depth 1..3 (quick) / 1..4; each case run in three separate processes and in the extracted model, whose only inputs are the position, the depth and the ChaCha8 streams derived from the seed'
@@ -1205,6 +1217,42 @@ def check_C04(chk, binp):
         if ps and ps[0]['nodes'] is not None and ps[0]['nodes'] > int(a[4]) + 10000 + 1:
             latebad.append((c, o))
     chk.streams.append({'name': 'after cancellation at node k at most POLL_PERIOD further node entries', 'against': 'C04_stop_bound', 'cases': len(cases), 'disagreements': len(latebad)})
+    # CALL LEVEL: one call of the real analyze_recursive with arbitrary (maximal depth, current depth, extensions used, window)
+    # and a preloaded table, against Search.analyze - the object the theorems quantify over. Parameters that a search from
+    # the root reaches only at great depth (all 16 check extensions used, a node in check one ply above the horizon) are
+    # ordinary inputs here. Well-formed inputs only (current <= maximal depth, entries with depth <= maximal depth): no panic.
+    CHECKED = ['4k3/8/8/8/8/8/4r3/4K3 w - - 0 1', '4k3/4R3/8/8/8/8/8/4K3 b - - 0 1', 'r3k2r/8/8/8/8/8/4q3/R3K2R w KQkq - 0 1',
+               '8/8/8/8/8/5k2/6q1/7K w - - 0 1', 'rnb1kbnr/pppp1ppp/8/4p3/6Pq/5P2/PPPPP2P/RNBQKBNR w KQkq - 1 3']
+    npos = CHECKED + rnd.sample(sel, min(len(sel), 30 if quick else 400))
+    nodec = []
+    for k in range(140 if quick else 3000):
+        f = rnd.choice(npos)
+        r = rnd.choice([0, 1, 1, 2, 2, 3]); base = rnd.choice([0, 0, 5, 33, 46])
+        mdv = base + r + rnd.choice([0, 1]); cdv = mdv - r
+        ce = rnd.choice([0, 0, 1, 7, 15, 16, 16, 17, 40])
+        if rnd.random() < 0.6:
+            a, b = -11000, 11000
+        else:
+            a = rnd.randrange(-11000, 10990); b = rnd.randrange(a + 1, 11001)
+        pre = []
+        for _ in range(rnd.choice([0, 0, 1, 2])):
+            mx = rnd.randrange(0, 60); dp = rnd.randrange(0, mx + 1)
+            pre.append('%s:%d:0:%d:%d:%d' % (rnd.choice(['@', '@', str(rnd.randrange(1 << 62))]), rnd.choice([0, 1, 2]), dp, mx, rnd.choice([rnd.randrange(-11000, 11001), 0, 10500, -10500])))
+        hst = rnd.choice(['-', '-', f, rnd.choice(npos)])
+        nt, nb = rnd.choice([(1, 1), (2, 16), (4, 64)])
+        nodec.append('node\t%d\t%d\t%d\t%d\t%d\t%d\t%d\t%d\t%d\t%s\t%s\t%s' % (rnd.randrange(1 << 30), rnd.randrange(1 << 50), mdv, cdv, ce, a, b, nt, nb, hst, ';'.join(pre) or '-', f))
+    ni = run_cases(binp, nodec, 'C04-node-impl', shards=16, timeout=900)
+    nm = run_cases(MODEL, nodec, 'C04-node-model', timeout=1500)
+    bnode = stream(chk, 'call level: value, nodes and final table of ONE call with arbitrary depth / extension / window parameters and a preloaded table', nodec, ni, nm, 'extracted Search.analyze')
+    npanic = [(c, o) for c, o in zip(nodec, ni) if o is None or o == 'panic']
+    chk.streams.append({'name': 'call level: no panic for any well-formed parameters (extension cap reached, in check one ply above the horizon, ...)', 'against': 'the property', 'cases': len(nodec), 'disagreements': len(npanic)})
+    chk.evaluations += len(nodec)
+    chk.extra['call_level_extensions_used'] = hist([c.split('\t')[5] for c in nodec])
+    for c, o in npanic[:2]:
+        chk.violation('a call of analyze_recursive with well-formed parameters panicked or did not return: %s -> %s' % (c, o), {'kind': 'input', 'case': c, 'code': o}, found_input=True)
+    if not npanic:
+        for i in bnode[:2]:
+            chk.violation('correspondence broken (call level) on %s: code %s model %s' % (nodec[i], (ni[i] or '')[:200], (nm[i] or '')[:200]), {'kind': 'correspondence', 'case': nodec[i], 'code': ni[i], 'model': nm[i]}, found_input=False)
     # process level: real threads, Stop at seeded instants; join latency (generous ceiling only to catch hangs)
     st = []
     for f in [F8, G.START] + rnd.sample(sel, 6 if quick else 60) + dead[:4]:
@@ -1795,6 +1843,41 @@ def check_C07(chk, binp):
             nb += 1
             chk.violation('UCI session %d: %s' % (i, problems[0]), {'kind': 'history', 'problems': problems[:5], 'transcript': [(s['cmd'], s['out'][-6:]) for s in steps][:80]}, found_input=True)
     chk.streams.append({'name': 'seeded well-formed UCI sessions monitored against the rules (position tracking, one legal bestmove per go, protocol, exit status)', 'against': 'session monitor + extracted rules specification', 'cases': len(res), 'disagreements': nb})
+    # move lists with the moves that a token-level shortcut gets wrong: a rook or queen leaving e1 / e8 along the back rank
+    # (the same coordinates as castling), real castling of both sides, a plain king step, en passant, all four promotion
+    # letters: the tracked position must be the one the rules define
+    TRICKY = [('6k1/5ppp/8/8/8/8/5PPP/4R2K w - - 0 1', 'e1g1'), ('6k1/5ppp/8/8/8/8/5PPP/4R2K w - - 0 1', 'e1c1 g8f8 c1a1'),
+              ('4r2k/5ppp/8/8/8/8/5PPP/6K1 b - - 0 1', 'e8g8'), ('4r2k/5ppp/8/8/8/8/5PPP/6K1 b - - 0 1', 'e8c8 g1f1 c8a8'),
+              ('6k1/8/8/8/8/8/8/4Q2K w - - 0 1', 'e1g1'), ('6k1/8/8/8/8/8/8/4Q2K w - - 0 1', 'e1a1 g8f8 a1h1'), ('4q2k/8/8/8/8/8/8/6K1 b - - 0 1', 'e8h8'),
+              ('r3k2r/8/8/8/8/8/8/R3K2R w KQkq - 0 1', 'e1g1 e8c8'), ('r3k2r/8/8/8/8/8/8/R3K2R w KQkq - 0 1', 'e1c1 e8g8'),
+              ('r3k2r/8/8/8/8/8/8/R3K2R w - - 0 1', 'e1f1 e8d8'), ('4k3/8/8/3pP3/8/8/8/4K3 w - d6 0 2', 'e5d6'),
+              ('4k3/8/8/8/3pP3/8/8/4K3 b - e3 0 2', 'd4e3'), ('4k3/1P6/8/8/8/8/6p1/4K3 w - - 0 1', 'b7b8q g2g1n'),
+              ('4k3/1P6/8/8/8/8/6p1/4K3 w - - 0 1', 'b7b8r g2g1b'), ('n3k3/1P6/8/8/8/8/6p1/4K2N w - - 0 1', 'b7a8b g2h1q')]
+    want = run_cases(MODEL, ['specplay\t%s\t%s' % (f, m) for f, m in TRICKY], 'C07-tricky', shards=2)
+    tbad = []
+    def tricky_session(item):
+        (f, m), w = item
+        se = U.Session(binp)
+        try:
+            st = se.send('position fen %s moves %s' % (f, m))
+            info = [l for l in st['out'] if l.startswith('info string')]
+            st = se.send('.state')
+            got = U.state_fen(st)
+        finally:
+            rc = se.close()
+        if w and w.count('/') == 7 and got != w:
+            return 'position fen %s moves %s: engine position %r, rules %r (%s)' % (f, m, got, w, info)
+        if rc != 0:
+            return 'exit status %r' % rc
+        return None
+    import concurrent.futures as cf4
+    with cf4.ThreadPoolExecutor(max_workers=4) as ex:
+        tres = list(ex.map(tricky_session, zip(TRICKY, want)))
+    tbad = [t for t in tres if t]
+    chk.streams.append({'name': 'move lists with back-rank moves from e1/e8 by rook or queen, castling, king steps, en passant, all promotion letters: tracked position', 'against': 'extracted rules specification (specplay)', 'cases': len(TRICKY), 'disagreements': len(tbad)})
+    chk.evaluations += len(TRICKY)
+    for t in tbad[:3]:
+        chk.violation('UCI position tracking: ' + t, {'kind': 'input', 'what': t}, found_input=True)
     # isready WHILE a search runs: readyok must come at once, before the bestmove of a search that still has seconds to go
     BUSY = ['r1bq1rk1/pp2bppp/2n1pn2/2pp4/3P1B2/2PBPN2/PP1N1PPP/R2QK2R w KQ - 4 8', 'r4rk1/1pp1qppp/p1np1n2/2b1p1B1/2B1P1b1/P1NP1N2/1PP1QPPP/R4RK1 w - - 0 10',
             '8/2p5/3p4/KP5r/1R3p1k/8/4P1P1/8 w - - 0 1', 'r3k2r/p1ppqpb1/bn2pnp1/3PN3/1p2P3/2N2Q1p/PPPBBPPP/R3K2R w KQkq - 0 1']
@@ -2007,9 +2090,27 @@ def check_C18(chk, binp):
                 break
             if sc is None or sc < 10000:
                 bad.append((P, Q, name, sc, bm, tr))
+    # the previous game ended with searches of TERMINAL roots only (the GUI sent go after the mating move): such searches
+    # record the position but store nothing in the table; after ucinewgame the mate in one of Q, whose mating move leads into
+    # that recorded position T, must be found as in a fresh process
+    for P, Q in pq:
+        r = spec_one('specmate\t%s\t1' % Q, 'C18-t')
+        if not r or not r[0].isdigit() or '=' not in r:
+            continue
+        T = r.split(' ', 1)[1].split(';')[0].split('=')[1].rsplit('@', 1)[0]
+        fresh_score, fresh_bm, _ = c18_session(binp, [], Q, 2)
+        if fresh_score is None or fresh_score < 10000:
+            continue
+        for name, pre in {'terminal-root-only': ['position fen ' + T, 'go depth 2', 'ucinewgame'],
+                          'terminal-root-twice': ['position fen ' + T, 'go depth 1', 'stop', 'position fen ' + T, 'go depth 2', 'stop', 'ucinewgame']}.items():
+            n += 1
+            sc, bm, tr = c18_session(binp, pre, Q, 2)
+            chk.distinct.add((Q, name))
+            if sc is None or sc < 10000:
+                bad.append((Q, T, name, sc, bm, tr))
     chk.streams.append({'name': 'after ucinewgame the mate-in-2 of P is reported as in a fresh process although Q was searched in the previous game', 'against': 'a fresh process on the same position', 'cases': n, 'disagreements': len(bad)})
     chk.evaluations += n
-    chk.rule = 'solver-found pairs (P, Q): P mate in 3 plies through Q only; histories before ucinewgame: search of Q finished+stop / collected by position / collected by go / still running / two previous games; then P searched at depth 4 and compared with a fresh process'
+    chk.rule = 'solver-found pairs (P, Q): P mate in 3 plies through Q only; histories before ucinewgame: search of Q finished+stop / collected by position / collected by go / still running / two previous games; then P searched at depth 4 and compared with a fresh process; and histories that searched only the TERMINAL position T after the mating move of Q, then Q searched at depth 2'
     chk.samples += [{'P': P, 'Q': Q} for P, Q in pq[:2]]
     for P, Q, name, sc, bm, tr in bad[:3]:
         chk.violation('history %s: after ucinewgame the search of %s no longer sees the mate (score %s, %s); Q=%s was searched in the previous game' % (name, P, sc, bm, Q),
